@@ -20,6 +20,11 @@ type detChecker struct {
 	headUnsupported  bool // Head documented (by its error value) as unsupported
 	keyOnly          bool // only the ordering key of a value is specified
 	contAfterHeadErr bool // "calling consecutive Head will yield consistent result ... Head following by Next will also yield consistent result"
+	// cancelClassOpen: the adapter's source classifies source errors with storage.IterIsDoneOrCancelled (cancellation
+	// family = end of stream, on the premise that such an error comes from the caller's own context): what it does
+	// with a cancellation-class failure of a source is unspecified - nothing is judged from that point on.
+	cancelClassOpen bool
+	unjudged        *bool
 }
 
 func (d *detChecker) step(op byte, o obs) (string, bool, bool) {
@@ -62,6 +67,12 @@ func (d *detChecker) step(op byte, o obs) (string, bool, bool) {
 		}
 		return opn + "-unexpected-" + kindName(o.K), false, false
 	case 'e', 'c':
+		if d.cancelClassOpen && isCancelClass(r) {
+			if d.unjudged != nil {
+				*d.unjudged = true
+			}
+			return "", false, false
+		}
 		switch o.K {
 		case 'v':
 			return failureIgnored(opn, r, false), false, false
@@ -203,20 +214,21 @@ func (m *mergeChecker) step(op byte, o obs) (string, bool, bool) {
 // ---------------------------------------------------------------------------------------------------------
 
 type adapter struct {
-	name            string
-	doc             string // the doc comment(s) the specification is written from
-	arity           int
-	sorted          bool // precondition of the adapter: inputs individually sorted
-	source          bool // no input iterators: the "input" is the item list (terminations do not apply)
-	params          int
-	paramDesc       func(p int) string
-	headUnsupported bool
-	lazyInputs      bool // documented: a later input is not read before the earlier one is exhausted
-	asyncStop       bool // Stop hands the remaining inputs to a goroutine (Drain)
-	racyUnderCancel bool // the adapter selects between ctx.Done() and another ready channel: results under a cancelled context depend on the runtime's choice
-	quickLen        int  // quick tier: input length bound for this adapter (0 = the general bound)
-	build           func(e *env, ins []InSpec, p int) (implIter, checker)
-	open            string // aspects left open for this adapter
+	name             string
+	doc              string // the doc comment(s) the specification is written from
+	arity            int
+	sorted           bool // precondition of the adapter: inputs individually sorted
+	source           bool // no input iterators: the "input" is the item list (terminations do not apply)
+	params           int
+	paramDesc        func(p int) string
+	headUnsupported  bool
+	lazyInputs       bool // documented: a later input is not read before the earlier one is exhausted
+	asyncStop        bool // Stop hands the remaining inputs to a goroutine (Drain)
+	cancelClassIsEnd bool // the adapter's source carries the explicit storage.IterIsDoneOrCancelled classification: cancellation-class source failures are not judged
+	racyUnderCancel  bool // the adapter selects between ctx.Done() and another ready channel: results under a cancelled context depend on the runtime's choice
+	quickLen         int  // quick tier: input length bound for this adapter (0 = the general bound)
+	build            func(e *env, ins []InSpec, p int) (implIter, checker)
+	open             string // aspects left open for this adapter
 }
 
 // Case is everything needed to re-run one case.
@@ -236,6 +248,7 @@ type outcome struct {
 	early bool
 	multi bool // an input was stopped more than once (informational)
 	post  int  // calls judged although the request context was already cancelled
+	unj   bool // the case met a cancellation-class source failure that is unspecified for this adapter: not judged from there on
 	// where and what (rendered by describe only when a deviation is reported)
 	op   byte
 	idx  int
@@ -319,6 +332,7 @@ type runner struct {
 	stopped   bool
 	headValid bool
 	headID    string
+	laxLazy   bool // a cancellation-class failure of an input counts as its end (cancelClassIsEnd adapters)
 	// the call being executed (for a panic report)
 	curOp  byte
 	curIdx int
@@ -386,6 +400,9 @@ func (r *runner) step(op byte, idx int, epi bool) (o obs) {
 		// Under a cancelled request context: Next/Head after Stop are not judged (Stop says Done, "a cancelled
 		// context wins" says ctx.Err()), nor is an adapter whose answer depends on a select between ready channels.
 		if r.stopped || ad.racyUnderCancel {
+			if ad.racyUnderCancel && r.comparing {
+				r.out.unj = true
+			}
 			r.comparing = false
 			return
 		}
@@ -402,7 +419,7 @@ func (r *runner) step(op byte, idx int, epi bool) (o obs) {
 	}
 	r.judge(op, idx, epi, o, fired)
 	// reported after the comparison of the result, which names the mechanism more precisely when it sees one
-	if ad.lazyInputs && !r.stopped {
+	if ad.lazyInputs && !r.stopped && !r.laxLazy {
 		for j := 1; j < len(e.stats); j++ {
 			if e.stats[j].touched() && !e.stats[j-1].doneSeen.Load() {
 				r.fail("later-input-read-before-earlier-exhausted", op, idx, epi, obs{}, fmt.Sprintf("input %d was read although input %d has not reported Done", j, j-1))
@@ -477,6 +494,14 @@ func runCase(ad *adapter, ins []InSpec, p int, script string, trace *[]string) (
 	total := 0
 	for _, in := range ins {
 		total += len(in.Items)
+		if ad.cancelClassIsEnd && (cancellationClassValue(in.term()) || firesCtx(in.term())) {
+			r.laxLazy = true
+		}
+	}
+	if ad.cancelClassIsEnd {
+		if dc, ok := r.chk.(*detChecker); ok {
+			dc.cancelClassOpen, dc.unjudged = true, &r.out.unj
+		}
 	}
 	for i := 0; i < len(script); i++ {
 		r.step(script[i], i, false)
